@@ -150,7 +150,8 @@ class TightCoupler:
                 f"{val} supplied has type {type(val)} which is not supported in {self}. "
                 f"Supported types: {self._SUPPORTED_TYPES}"
             )
-        self._previousIterationValue = val
+        # a copy: the interface may hand out (and later update in place) its own list or array
+        self._previousIterationValue = copy.deepcopy(val)
 
     def isConverged(self, val: _SUPPORTED_TYPES) -> bool:
         """
